@@ -1383,6 +1383,9 @@ fn respawn(w: &mut World, ci: usize) {
 // ---------------------------------------------------------------------------------------------
 
 pub const C14_BASE: u64 = 1025 * 8 * 2;
+/// second enumerated family: {v4,v5} x 6 cookie-length classes x initial fill 1..=8 x surplus 1..=8 x 4 answer patterns
+pub const C14_MULTI: u64 = 2 * 6 * 8 * 8 * 4;
+const C14_ROUNDS: usize = 20;
 
 pub fn run_c14_case() {
     simntp::reset_hooks();
@@ -1393,6 +1396,8 @@ pub fn run_c14_case() {
             let fill = 1 + ((idx / 1025) % 8) as usize;
             let v5 = (idx / (1025 * 8)) % 2 == 1;
             c14_uniform(len, fill, v5).await;
+        } else if idx < C14_BASE + C14_MULTI {
+            c14_multiround(idx - C14_BASE).await;
         } else {
             c14_mixed().await;
         }
@@ -1503,6 +1508,140 @@ async fn c14_uniform(len: usize, fill: usize, v5: bool) {
             break;
         }
         let _ = step;
+    }
+}
+
+/// Multi-round histories against the key-holding server: the stash state is carried across
+/// >= 12 poll/answer rounds in which the server returns more cookies than asked (surplus
+/// 1..=8, overfilling the ring), exactly as many, fewer, none, or the answer is lost, so
+/// every read/write position of the ring meets every overfill amount. The C14 oracle
+/// applies at every `handle_timer`; C13's FIFO-of-eight-newest model runs alongside.
+async fn c14_multiround(case: u64) {
+    let pattern = (case % 4) as usize;
+    let surplus = 1 + ((case / 4) % 8) as usize;
+    let fill = 1 + ((case / 32) % 8) as usize;
+    let class = ((case / 256) % 6) as usize;
+    let v5 = (case / 1536) % 2 == 1;
+    let len = [8usize, 16, 40, 64, 104, 168][class];
+    ev!("c14 multiround v5={v5} cookie_len={len} fill={fill} surplus={surplus} pattern={pattern}");
+    let mut counter = 0u64;
+    let mut mk = |n: usize| -> Vec<Vec<u8>> {
+        (0..n)
+            .map(|_| {
+                counter += 1;
+                let mut c = counter.to_be_bytes().to_vec();
+                c.resize(len, 0xC5);
+                c
+            })
+            .collect()
+    };
+    let initial = mk(fill);
+    let mut model: VecDeque<Vec<u8>> = initial.iter().cloned().collect();
+    let mut r = rig(v5, Some(initial.as_slice()), None);
+    // deterministic per-case generator for pattern 3
+    let mut lcg = case.wrapping_mul(0x9E37_79B9_7F4A_7C15).wrapping_add(0x1234_5678_9ABC_DEF1);
+    for round in 0..C14_ROUNDS {
+        r.t += 1_000_000_000;
+        advance_to(r.t).await;
+        let held = r.src.verif_x_view().stash.len();
+        let ctx = format!("multiround v5={v5} cookie_len={len} fill={fill} surplus={surplus} pattern={pattern} round={round} held={held}");
+        let Some(req) = c14_timer(&mut r, &ctx) else {
+            break;
+        };
+        let used = model.pop_front();
+        let efs = wire::walk(&req, v5);
+        let sent = efs.iter().find(|e| e.ty == wire::EF_COOKIE).map(|e| e.body.clone());
+        check!(
+            "C13",
+            "oldest-cookie-first",
+            matches!((&used, &sent), (Some(u), Some(b)) if cookie_on_wire_matches(u, b)),
+            "{ctx}: request carries {:?}, model's oldest is {:?}",
+            sent.as_ref().map(|x| hex(x)),
+            used.as_ref().map(|x| hex(x))
+        );
+        let asked = 1 + efs.iter().filter(|e| e.ty == wire::EF_PLACEHOLDER).count();
+        // what the server does this round
+        #[derive(Debug)]
+        enum Act {
+            Lost,
+            Give(usize),
+        }
+        let act = match pattern {
+            0 => Act::Give(asked + surplus),
+            1 => match (round + fill) % 6 {
+                0 => Act::Give(asked),
+                1 | 5 => Act::Give(asked + surplus),
+                2 => Act::Lost,
+                3 => Act::Give(0),
+                _ => Act::Give(asked.saturating_sub(1)),
+            },
+            2 => {
+                if round % (1 + fill % 3) == 0 {
+                    Act::Give(asked + surplus)
+                } else {
+                    Act::Give(asked)
+                }
+            }
+            _ => {
+                lcg = lcg.wrapping_mul(6364136223846793005).wrapping_add(1442695040888963407);
+                match (lcg >> 33) % 8 {
+                    0 => Act::Lost,
+                    1 => Act::Give(0),
+                    2 => Act::Give(asked.saturating_sub(1)),
+                    3 | 4 => Act::Give(asked),
+                    5 => Act::Give(asked + 1 + ((lcg >> 40) % 8) as usize),
+                    _ => Act::Give(asked + surplus),
+                }
+            }
+        };
+        let Act::Give(mut n) = act else {
+            ev!("round {round}: answer lost");
+            continue;
+        };
+        // what fits a 1024-byte datagram
+        let per = if v5 { len + 4 } else { wire::pad4(len) + 4 };
+        let room = (1024usize - (48 + 36 + 40 + if v5 { 28 + 24 } else { 0 })) / per;
+        n = n.min(room);
+        let send_ts = r.clock.now().unwrap();
+        r.t += 20_000_000;
+        advance_to(r.t).await;
+        let now_fixed = ts_to_fixed(r.clock.now().unwrap());
+        let del = mk(n);
+        let resp = byz_response(&req, r.s2c.as_ref(), |_| {}, None, false, &del, if v5 { Some(&[0u8; 16]) } else { None }, now_fixed, now_fixed);
+        let recv_ts = r.clock.now().unwrap();
+        let (m0, _) = r.spy.counts();
+        let src = &mut r.src;
+        let res = exec::catch(|| collect(src.handle_incoming(&resp, send_ts, recv_ts)));
+        let (m1, _) = r.spy.counts();
+        if let Err(msg) = &res {
+            simkit::oracle("C14");
+            simkit::violation("C14", "poll-construction-panicked", format!("{ctx}: handle_incoming of an authenticated response with {n} cookies (asked {asked}) panicked: {msg}"));
+            return;
+        }
+        if m1 == m0 {
+            simkit::abort(format!("{ctx}: harness-built authenticated response ({} bytes, {n} cookies) was not accepted", resp.len()));
+            return;
+        }
+        for c in del {
+            model.push_back(c);
+            if model.len() > 8 {
+                model.pop_front();
+            }
+        }
+        let have = r.src.verif_x_view().stash;
+        let want: Vec<Vec<u8>> = model.iter().cloned().collect();
+        check!(
+            "C13",
+            "stash-matches-fifo-of-eight-newest",
+            have == want,
+            "{ctx}: after {n} cookies (asked {asked}) the stash holds {:?}, model {:?}",
+            have.iter().map(|x| hex(x)).collect::<Vec<_>>(),
+            want.iter().map(|x| hex(x)).collect::<Vec<_>>()
+        );
+        ev!("round {round}: asked={asked} given={n} held={}", have.len());
+        if n > asked {
+            probe("stash-overfilled");
+        }
     }
 }
 
